@@ -200,6 +200,8 @@ func (c *ContractIterator) Value() []byte {
 // stripDelIterator 从迭代器里剔除删除标注和空版本
 type stripDelIterator struct {
 	ledger.XMIterator
+	// keepEmpty为true时只剔除删除标注，保留空版本(本次执行写入的数据没有版本)
+	keepEmpty bool
 }
 
 func newStripDelIterator(xmiter ledger.XMIterator) ledger.XMIterator {
@@ -208,10 +210,21 @@ func newStripDelIterator(xmiter ledger.XMIterator) ledger.XMIterator {
 	}
 }
 
+// newStripDelFlagIterator 只剔除删除标注, 用于合并之后的迭代器
+func newStripDelFlagIterator(xmiter ledger.XMIterator) ledger.XMIterator {
+	return &stripDelIterator{
+		XMIterator: xmiter,
+		keepEmpty:  true,
+	}
+}
+
 func (s *stripDelIterator) Next() bool {
 	for s.XMIterator.Next() {
 		v := s.Value()
 		if IsDelFlag(v.PureData.Value) {
+			continue
+		}
+		if !s.keepEmpty && IsEmptyVersionedData(v) {
 			continue
 		}
 		return true
